@@ -233,9 +233,22 @@ def c(ck: Check) -> None:
     st = [e for e in fm.field_events() if e.kind == "store" and e.field == "attractor_sets"]
     def second_component(e) -> bool:
         v = e.value
-        vals = [x for _, x in fm.value_defs(v.id, e.cfgn)] if isinstance(v, ast.Name) else [v]
-        return bool(vals) and all(x is not None and (is_empty_list(x) or text(x).endswith("[1]")) for x in vals) \
-            and any(x is not None and text(x).endswith("[1]") for x in vals)
+        if not isinstance(v, ast.Name):
+            return text(v).endswith("[1]")
+        kinds = []
+        for d_ in fm.cfg.reaching_defs(v.id, e.cfgn):
+            a_ = d_.ast if d_.kind == "stmt" else None
+            if isinstance(a_, ast.Assign) and isinstance(a_.targets[0], ast.Tuple) and len(a_.targets[0].elts) == 2 \
+                    and text(a_.targets[0].elts[1]) == v.id and isinstance(a_.value, ast.Call) \
+                    and callee_name(a_.value) == "compute_attractors_symbolic":
+                kinds.append("second")
+            elif isinstance(a_, ast.Assign) and isinstance(a_.targets[0], ast.Name) and is_empty_list(a_.value):
+                kinds.append("empty")
+            elif isinstance(a_, ast.Assign) and isinstance(a_.targets[0], ast.Name) and text(fm.deref(a_.value, d_)).endswith("[1]"):
+                kinds.append("second")
+            else:
+                kinds.append("other")
+        return "second" in kinds and "other" not in kinds
     if not st or not all(second_component(e) for e in st):
         probs.append("the stored value is not the set component of the result")
     asr = [n for n in own_walk(f.node) if isinstance(n, ast.Assert) and "is not None" in text(n.test)]
